@@ -112,6 +112,10 @@ def gen_bty(rng, depth, maxlen):
         if d == 0 or rng.random() < 0.4:
             return ["ty", rng.choice("xyz")]
         l, r = gen_bty(rng, d - 1, maxlen), gen_bty(rng, d - 1, maxlen)
+        if rng.random() < 0.06:
+            l = ["tensor", []]          # a slash type with an empty side
+        elif rng.random() < 0.06:
+            r = ["tensor", []]
         return ["over" if rng.random() < 0.5 else "under", l, r]
     n = rng.randint(1, maxlen)
     if n == 1:
@@ -124,7 +128,7 @@ def spec_wires(spec):
         return 1
     if spec[0] == "tensor":
         return sum(spec_wires(f) for f in spec[1])
-    return spec_wires(spec[1]) + spec_wires(spec[2])
+    return spec_wires(spec[1]) + spec_wires(spec[2])      # (an empty side counts 0)
 
 
 def gen_bty_bounded(rng, depth, maxlen, max_wires=5):
@@ -505,6 +509,12 @@ class Driver:
             n = gen.randint(1, min(3, len(wires)))
             words.append({"name": "w%d" % k, "ty": wires[:n]})
             wires, k = wires[n:], k + 1
+            if gen.random() < 0.08:
+                words.append({"name": "e%d" % k, "ty": []})      # a word with the empty type
+        if gen.random() < 0.03:
+            words = []                                            # no words at all
+        if gen.random() < 0.15 and words:
+            words[gen.randrange(len(words))]["name"] = words[0]["name"]     # the same word twice
         return words, target
 
     def next_op(self, world):
@@ -590,7 +600,9 @@ class Driver:
             right = self._tree(par(ys) + "/" + par(zs), ["over", yt, zs_spec], depth - 1)
             return {"type": "fc", "cat": cat, "children": [left, right]}
         left = self._tree(ys, yt, depth - 1)
-        return {"type": "conj", "cat": cat, "children": [left, {"word": "w%d" % self._nw, "cat": cat}]}
+        arity = gen.choice([1, 2, 2, 3])
+        kids = [left] + [{"word": "w%d_%d" % (self._nw, k), "cat": cat} for k in range(arity - 1)]
+        return {"type": gen.choice(["conj", "lex", "tr"]), "cat": cat, "children": kids}
 
     def _render(self, spec):
         par = lambda s: "(" + s + ")" if ("/" in s or "\\" in s) else s
